@@ -73,7 +73,13 @@ func VerifC03_PlainTwoCoins() {
 	}
 	state := []types.HTLCState{types.Open, types.Completed, types.Refunded}[verifChoice("state", 3)]
 	id := hID(0xfe)
-	h := e.putHTLC(id, state, false, types.None, amount, ts, uint64(hHeight), state == types.Open)
+	// claims arrive in the last block in which the contract is open (the begin-block handler of the NEXT block
+	// refunds it); the refund runs in the block of the expiration height
+	expiry := uint64(hHeight) + 1
+	if op == 3 {
+		expiry = uint64(hHeight)
+	}
+	h := e.putHTLC(id, state, false, types.None, amount, ts, expiry, state == types.Open)
 	if selfLock {
 		h.To = sender.String()
 		e.k.SetHTLC(e.ctx, h, id)
